@@ -396,11 +396,10 @@ func projectClient(e *env, ctx sdk.Context, chain string) *Post {
 		if len(key) != len(prefix)+16 {
 			continue
 		}
-		c, err := clienttypes.UnmarshalConsensusState(e.app.AppCodec(), it.Value())
-		if err != nil {
-			continue
+		kind, ts := "?", uint64(0)
+		if c, err := clienttypes.UnmarshalConsensusState(e.app.AppCodec(), it.Value()); err == nil {
+			kind, ts = consKind(c)
 		}
-		kind, ts := consKind(c)
 		p.Cons = append(p.Cons, ConsObs{Rev: sdk.BigEndianToUint64(key[len(prefix) : len(prefix)+8]), H: sdk.BigEndianToUint64(key[len(prefix)+8:]), Kind: kind, Ts: ts})
 	}
 	sort.Slice(p.Cons, func(i, j int) bool {
@@ -414,10 +413,14 @@ func projectClient(e *env, ctx sdk.Context, chain string) *Post {
 
 func runXibc(e *env, s *XibcSpec) []StepObs {
 	ctx, _ := e.base.CacheContext()
+	return runXSteps(e, ctx, s.Steps)
+}
+
+func runXSteps(e *env, ctx sdk.Context, steps []XStep) []StepObs {
 	handler := xibcclient.NewClientProposalHandler(e.app.XIBCKeeper.ClientKeeper)
 	obs := []StepObs{}
-	for i := range s.Steps {
-		st := &s.Steps[i]
+	for i := range steps {
+		st := &steps[i]
 		o := StepObs{X: -1}
 		var content govtypes.Content
 		if p, val := hlib.Catch(func() { content, o.Oracle = buildContent(st) }); p {
@@ -498,8 +501,11 @@ func validTM(r *hlib.Rand) CSSpec {
 		Latest: H{pickU(r, 0, 1), pickU(r, 1, 5, 10, 47, 100)}, NSpecs: 2}
 }
 
-func genCS(r *hlib.Rand, kind string) CSSpec {
-	valid := !r.Chance(2, 3) // one third plainly valid, the rest carries one or two mutations
+func genCS(r *hlib.Rand, kind string) CSSpec { return genCSp(r, kind, 2, 3) }
+
+// genCSp: a client state of the given kind; with probability num/den it carries one or two mutations
+func genCSp(r *hlib.Rand, kind string, num, den int) CSSpec {
+	valid := !r.Chance(num, den)
 	switch kind {
 	case "tm":
 		c := validTM(r)
